@@ -3,9 +3,45 @@ from __future__ import annotations
 
 from typing import Any, Dict
 
+from typing import List, Tuple
+
 from harness import gen_parse, gen_spelling, gen_txn_types
-from props import kprop
+from props import c06, detfam, families, kprop, sdriver
 from props.common import Ctx
+from vlib import scheck, tealgen as tg
+
+
+def check(src: str, spec: Dict[str, Any]) -> Tuple[List[Any], Any]:
+    """A rewritten program is validated against the semantics on its own: sets exact (C06 reading), detector verdicts decided both ways (C01/C03 readings)."""
+    if spec.get("mode") == "sets":
+        fs, st = c06.check(src, spec)
+    else:
+        f1, st = scheck.check_must_report(src, "C15", unroll=2)
+        if st.skipped:
+            return f1, st
+        f2, s2 = scheck.check_must_not_report(src, "C15", unroll=2)
+        fs, st = f1 + f2, families.merge_stats(st, s2)
+    for f in fs:
+        f.prop = "C15"
+        f.what = "rewritten program (comments / blank lines / indentation / renamed labels / re-spelled integers): " + f.what
+    return fs, st
+
+
+sdriver.CHECKS["c15"] = check
+
+
+def family(ctx: Ctx) -> List[Tuple[str, str, Dict[str, Any]]]:
+    out: List[Tuple[str, str, Dict[str, Any]]] = []
+    step = 10 if ctx.quick else 3
+    sets = [x for x in c06.family(ctx) if x[0].startswith(("a/", "b/", "d/", "e/", "g/"))]
+    for i, (name, src, spec) in enumerate(sets):
+        if i % step == ctx.seed % step:
+            out.append((f"sets/{name}/n{i % 5}", tg.noisy(src, i % 5 + 1), dict(spec, mode="sets")))
+    dets = [x for x in detfam.family(ctx, quick_cap=200) if x[0].startswith(("a/", "b/", "d/", "e/", "g/", "gs/"))]
+    for i, (name, src, spec) in enumerate(dets):
+        if i % step == ctx.seed % step:
+            out.append((f"det/{name}/n{i % 5}", tg.noisy(src, i % 5 + 1), dict(spec, mode="det")))
+    return out
 
 
 def run(ctx: Ctx) -> int:
@@ -19,12 +55,15 @@ def run(ctx: Ctx) -> int:
         "narrow claim, decided by bounded symbolic execution (CrossHair/z3): for all uint64 constants c the comparison kernels of GroupSize, Fee and the transaction kinds return "
         "identical true/false results whether c is pushed by `int`, `pushint`, `intc i` or `intc_i` (entry-block constant block); is_int_push_ins evaluates all four to c; every "
         "named TypeEnum / OnCompletion constant gives the same sets as its number; decimal, hex and octal spellings of every value 0..255 parse to the same constant through the "
-        "real parse_line. Outside the technique (stated in DESIGN.md): label renaming, comments, blank lines, padding and moving subroutines are relations between two texts - "
-        "comparing two concrete runs is differential testing, not solver-based checking",
+        "real parse_line. Textual rewrites (comments, blank lines, indentation, trailing comments, renamed labels, hex/octal re-spelling of integers; moved subroutines and "
+        "padding are part of the base families) are covered without comparing two runs: every rewritten variant of a slice of the C06 and detector families is validated by z3 "
+        "against the semantics on its own (exact GroupSize/GroupIndex sets, detector verdict decided both ways), so on the fragment where these are exact two spellings agree "
+        "because both equal the semantic value. A direct comparison of two concrete runs would be differential testing and is not done",
         [UA.is_int_push_ins, PI._parse_int, TxnType._get_asserted_transaction_types],
         {"constants": "all uint64 (kernels); 0..255 (spellings through parse_line)"},
         ["intcblock is in the entry block and unique (the documented condition under which tealer evaluates intc)"],
         timeout_quick=150, timeout_thorough=400,
+        s_family=("c15", family(ctx)),
     )
 
 
